@@ -315,7 +315,13 @@ func (g *gctx) typ(depth int, inContainer bool) *TD {
 			g.seq++
 			f := Field{Name: fmt.Sprintf("F%d", g.seq), T: g.typ(depth-1, false)}
 			jn := fmt.Sprintf("f%d", g.seq)
-			switch rapid.IntRange(0, 8).Draw(g.t, "tag") {
+			switch rapid.IntRange(0, 10).Draw(g.t, "tag") {
+			case 9:
+				f.Tag = fmt.Sprintf(`json:"%s,omitempty,string"`, jn)
+				g.feats["tag-string"] = true
+			case 10:
+				f.Tag = fmt.Sprintf(`json:"%s,string,omitempty"`, jn)
+				g.feats["tag-string"] = true
 			case 6:
 				// the ",string" option: encoding/json quotes booleans, numbers and strings, ignores it elsewhere
 				f.Tag = fmt.Sprintf(`json:"%s,string"`, jn)
